@@ -283,6 +283,17 @@ def decl_search():
     want = {"work": ("(:,:)", ["pointer"]), "scale": ("", ["pointer"]), "first": ("(:)", ["allocatable"]), "last": ("", ["allocatable"]), "flag": ("(n)", []), "cnt": ("", ["target"])}
     if got != want:
         return {"confirmed": True, "input": {"source": src}, "actual": got, "expected": want, "how": "real parser; (dimension, attributes) of variables shaped by POINTER / ALLOCATABLE / DIMENSION / TARGET statements"}
+    # bounds written in a COMMON statement belong to the member whatever the letter case of its name
+    src = "module m\n  real Grid, w\n  integer KOUNT\n  common /mesh/ Grid(10,20), w(5), KOUNT(3)\nend module m\n"
+    try:
+        m = realrun.build_project({"src/m.f90": src}).modules[0]
+        shape = lambda v: v.dimension or next((a[len("dimension"):].strip() for a in v.attribs if a.startswith("dimension")), "")
+        got = {v.name.lower(): shape(v) for c in m.common for v in c.variables if not isinstance(v, str)}
+    except Exception as ex:
+        got = f"{type(ex).__name__}: {ex}"
+    want = {"grid": "(10,20)", "w": "(5)", "kount": "(3)"}
+    if got != want:
+        return {"confirmed": True, "input": {"source": src}, "actual": got, "expected": want, "how": "real parser; bounds of common-block members given in the COMMON statement"}
     # the suffix of a function statement: RESULT and BIND in either order; the binding label is the text inside bind(...) and nothing else
     for stmt, bindc, res in (('function f(x) bind(c, name="f_c") result(rr)', 'c, name="f_c"', "rr"), ('function f(x) result(rr) bind(c, name="f_c")', 'c, name="f_c"', "rr"),
                              ("function f(x) bind(c) result(rr)", "c", "rr"), ("function f(x) result(rr)", None, "rr"), ("function f(x) bind(C, name='q(1)')", "C, name='q(1)'", "f")):
